@@ -1288,6 +1288,35 @@ pub fn record(suite: &str, n: usize, seed: u64, arg: &str, out: &mut dyn Write) 
                 }
             }
         }
+        // C01 on the strings of a TLC-generated plan: rt2 (decode, re-encode) on every string; for the
+        // accepted ones also rt (encode the decoded element, decode again, compare) through rotating forms
+        "rtfile" => {
+            let mut m = Machine::new(out);
+            m.reset();
+            let text = std::fs::read_to_string(arg).expect("input file");
+            for (i, line) in text.lines().enumerate() {
+                if i % 50 == 49 {
+                    m.reset();
+                }
+                let v: Value = serde_json::from_str(line).expect("json");
+                let b: Vec<u8> = serde_json::from_value(v["b"].clone()).expect("bytes");
+                let edge = v["kind"].as_str() == Some("edge_valid") || v["kind"].as_str() == Some("valid");
+                let reps = if edge { DEC32_FORMS.len() + DECSLICE_FORMS.len() } else { 1 };
+                for _ in 0..reps {
+                    let j = m.rot(DEC32_FORMS.len() + DECSLICE_FORMS.len());
+                    let f = m.rot(ENC_FORMS.len());
+                    m.rt2(j, f, &b, 1);
+                }
+                if v["ok"].as_bool() == Some(true) {
+                    m.decode(0, &b, 2);
+                    for _ in 0..(if edge { 6 } else { 1 }) {
+                        let f = m.rot(ENC_FORMS.len());
+                        let j = m.rot(DEC32_FORMS.len() + DECSLICE_FORMS.len());
+                        m.rt(f, j, 2, 3);
+                    }
+                }
+            }
+        }
         // decoding of strings given in a file: {"b":[...], "entries":"all"|"one"}
         "decfile" => {
             let mut m = Machine::new(out);
